@@ -34,6 +34,13 @@ func (pt *ParsedTable) ToText() string {
 	return sb.String()
 }
 
+// maxGridSpan and maxTableColumns bound what a file can claim for the width of
+// a table: span counts are taken from the file and size the grid.
+const (
+	maxGridSpan     = 1024
+	maxTableColumns = 16384
+)
+
 // ToMarkdown returns a markdown table representation.
 func (pt *ParsedTable) ToMarkdown() string {
 	if len(pt.Rows) == 0 {
@@ -60,6 +67,9 @@ func (pt *ParsedTable) ToMarkdown() string {
 
 	if colCount == 0 {
 		return ""
+	}
+	if colCount > maxTableColumns {
+		colCount = maxTableColumns
 	}
 
 	// Write each row
@@ -247,6 +257,10 @@ func (tp *TableParser) parseCell(cell tableCellXML) ParsedTableCell {
 	// Parse column span (gridSpan)
 	if props.GridSpan.Val != "" {
 		if span, err := strconv.Atoi(props.GridSpan.Val); err == nil && span > 0 {
+			// The count comes from the file and sizes the grid
+			if span > maxGridSpan {
+				span = maxGridSpan
+			}
 			parsed.ColSpan = span
 		}
 	}
@@ -348,6 +362,10 @@ func (tp *TableParser) processVerticalMerges(table *ParsedTable) {
 		}
 	}
 
+	if colCount > maxTableColumns {
+		colCount = maxTableColumns
+	}
+
 	// Track merge starts for each column
 	mergeStarts := make([]int, colCount) // Row index where merge started
 	for i := range mergeStarts {
@@ -358,6 +376,9 @@ func (tp *TableParser) processVerticalMerges(table *ParsedTable) {
 		colIdx := 0
 		for cellIdx := range row.Cells {
 			cell := &table.Rows[rowIdx].Cells[cellIdx]
+			if colIdx >= colCount {
+				break
+			}
 
 			if cell.IsMergedContinuation {
 				if mergeStarts[colIdx] >= 0 {
@@ -415,6 +436,9 @@ func (pt *ParsedTable) ToModelTable() *model.Table {
 	}
 
 	rowCount := len(pt.Rows)
+	if colCount > maxTableColumns {
+		colCount = maxTableColumns
+	}
 	table := model.NewTable(rowCount, colCount)
 	table.HasGrid = pt.HasBorders
 	table.Confidence = 1.0 // DOCX tables are explicit
